@@ -1,10 +1,62 @@
-//! C03 — not built yet.
+//! C03 A publication point contributes one consistent object set.
+
+use proptest::strategy::Strategy;
 
 use crate::core::*;
+use crate::erpki::*;
+use crate::erun::*;
+use crate::escen::*;
 
-pub const IMPLEMENTED: bool = false;
+fn profile() -> HistProfile {
+    let mut hp = HistProfile::default();
+    hp.base.fault_16 = 1;
+    hp.base.max_objs = 7;
+    hp.base.max_cas = 4;
+    hp.incomplete_16 = 7;
+    hp.rollback_16 = 1;
+    hp.fail_module_16 = 1;
+    hp
+}
 
-pub fn run(_ctx: &Ctx, _rep: &mut Report, _replay: Option<&serde_json::Value>) {
-    eprintln!("C03: check not implemented");
-    std::process::exit(2);
+/// Does the scenario contain an abandoned update (valid newer manifest, incomplete files) over a stored version?
+fn has_abandoned_update(sc: &Scenario) -> bool {
+    sc.cas.iter().any(|ca| ca.versions.iter().skip(1).any(|v| matches!(v.fault, Some(PpFault::FileMissing(_)) | Some(PpFault::HashMismatch(_))) && v.objs.len() >= 2))
+}
+
+fn prop(sc: &Scenario, info: &mut CaseInfo) -> Verdict {
+    let j = Judge { id: "C03", sound: true, complete: true, ..Default::default() };
+    // the engine shuffles manifest entries: repeat the whole history to cover different orders
+    let repeats = 3;
+    let mut verdict = Verdict::Pass;
+    for _ in 0..repeats {
+        let mut i2 = CaseInfo::default();
+        verdict = judge(&j, sc, &mut i2, |_, _| None);
+        if !matches!(verdict, Verdict::Pass) {
+            break;
+        }
+    }
+    info.nt(has_abandoned_update(sc));
+    for c in history_classes(sc) {
+        info.class(c);
+    }
+    if has_abandoned_update(sc) {
+        info.class("abandoned_update");
+    }
+    verdict
+}
+
+pub fn run(ctx: &Ctx, rep: &mut Report, replay: Option<&serde_json::Value>) {
+    rep.rule("E-rpki histories of 2-4 runs over a persistent cache; CAs have 3 versions with disjoint slots; later versions are frequently valid-but-incompletely-retrievable (one listed file missing or hash-mismatching at a generated position among up to 7 objects); each history is executed 3 times because the engine shuffles manifest entries; oracle: after every run the served items of each CA are exactly those of the single version the model selects (fetched-and-complete or stored), in particular no item of an abandoned fetched version; non-trivial = history contains an abandoned update with >=2 listed objects after a stored version; distinct by serialised scenario");
+    rep.assume("reference model Appendix A; repetition covers the engine's random processing order only probabilistically (3 orders per case)");
+    ctx.shrink_iters.store(120, std::sync::atomic::Ordering::Relaxed);
+    if let Some(v) = replay {
+        let t: Tagged<Scenario> = serde_json::from_value(v.clone()).expect("replay");
+        run_case(ctx, rep, &t.sub, &t.case, prop);
+        return;
+    }
+    let hp = profile();
+    run_prop_par(ctx, rep, "history", ctx.tier.pick(160, 4000), 8, || genome(260).prop_map({
+        let hp = hp.clone();
+        move |w| history_run(&w, &hp)
+    }), prop);
 }
